@@ -3,7 +3,7 @@
    discharged with the cell codec's round trip (Cell/CellFacts.v).  No axioms. *)
 From Coq Require Import List NArith ZArith Bool Lia ZifyBool Arith FinFun.
 From RPFT Require Import Base.Sexp Base.PyStr Base.PyStrFacts Base.Result Base.ODict Gen.Tables
-  Cell.Cell Cell.CellFacts Row.Ty Row.Layout Row.RowParse Row.RowUnparse Row.TextFacts Row.RoundTrip.
+  Cell.Cell Cell.CellFacts Row.Ty Row.Layout Row.RowParse Row.RekeyFacts Row.RowUnparse Row.TextFacts Row.RoundTrip.
 Import ListNotations.
 Local Open Scope N_scope.
 
@@ -533,11 +533,23 @@ Lemma join_from_lists_Lst depth l :
   | None => None
   | Some sep => match join_all (S depth) l with
                 | None => None
-                | Some [p] => Some (p ++ [sep])
-                | Some ps => Some (join_char sep ps)
+                | Some ps => Some (join_parts sep ps)
                 end
   end.
 Proof. reflexivity. Qed.
+
+Lemma trimmedb_join_parts sep ps :
+  is_ws sep = false -> Forall (fun p => trimmedb p = true) ps -> trimmedb (join_parts sep ps) = true.
+Proof.
+  intros Hs Hall. destruct ps as [|p [|q r]].
+  - unfold join_parts. cbn [ends_blank]. rewrite andb_false_r. reflexivity.
+  - cbn [join_parts]. inversion Hall as [|? ? Hp _]; subst.
+    apply (trimmedb_app_sep p sep []); [exact Hp|reflexivity|exact Hs].
+  - unfold join_parts. destruct (join_keeps_blank_last && ends_blank (p :: q :: r)).
+    + apply (trimmedb_app_sep (join_char sep (p :: q :: r)) sep []); [|reflexivity|exact Hs].
+      apply trimmedb_join_char; assumption.
+    + apply trimmedb_join_char; assumption.
+Qed.
 
 Lemma join_trimmed x : forall d txt,
   nv_trimmed x = true -> join_from_lists d x = Some txt -> trimmedb txt = true.
@@ -555,11 +567,7 @@ Proof.
         destruct (join_all (S d) r) as [t|] eqn:Et; [|discriminate]. injection Hps as <-.
         constructor; [apply (Hx (S d) a Ht1 Ea)|apply (IHr Ht2 t eq_refl)]. }
     destruct (join_all (S d) l) as [ps|]; [|discriminate]. specialize (Hall ps eq_refl).
-    destruct ps as [|p [|q r]].
-    + injection Hj as <-. reflexivity.
-    + injection Hj as <-. inversion Hall as [|? ? Hp _]; subst.
-      apply (trimmedb_app_sep p sep []); [exact Hp|reflexivity|exact Hws].
-    + injection Hj as <-. apply (trimmedb_join_char sep (p :: q :: r)); assumption.
+    injection Hj as <-. apply trimmedb_join_parts; assumption.
 Qed.
 
 Lemma trim_trimmed x : nv_trimmed x = true -> trim x = x.
@@ -572,10 +580,10 @@ Qed.
 
 (* C08's round trip, in the form the row parser uses it *)
 Lemma cell_roundtrip x s :
-  wfb x = true -> nv_trimmed x = true -> join_cell x = Ok s -> cell_parse s = x.
+  wfb_tree x = true -> nv_trimmed x = true -> join_cell x = Ok s -> cell_parse s = x.
 Proof.
   intros Hw Ht Hj. unfold join_cell in Hj.
-  destruct (list_roundtrip x Hw) as [txt [J P]]. rewrite J in Hj. injection Hj as <-.
+  destruct (list_roundtrip_tree x Hw) as [txt [J P]]. rewrite J in Hj. injection Hj as <-.
   unfold cell_parse. rewrite (trimmedb_strip txt (join_trimmed x 0 txt Ht J)), P. apply trim_trimmed, Ht.
 Qed.
 
@@ -739,7 +747,7 @@ Proof.
   assert (Hlv : leaf_value t (Raw s) = cell_parse s).
   { unfold leaf_value. destruct t; try discriminate; reflexivity. }
   unfold leaf_assign. rewrite Hlv.
-  assert (Hgen : wfb x = true -> nv_trimmed x = true ->
+  assert (Hgen : wfb_tree x = true -> nv_trimmed x = true ->
                  assign_value t x = Ok (Some (enc t v)) ->
                  (do r <- assign_value t (cell_parse s); Ok match r with Some o => o | None => cur end) = Ok (enc t v)).
   { intros Hw Htr Ha. rewrite (cell_roundtrip x s Hw Htr Hj), Ha. reflexivity. }
@@ -1161,12 +1169,12 @@ Qed.
 
 Lemma rekey_none_gen cells : forall acc,
   NoDup (map fst (acc ++ cells)) ->
-  foldM (fun acc kv => do k <- ctx_h2f None cells (fst kv); Ok (oset str_eqb acc k (snd kv))) cells acc
+  foldM (fun acc kv => do k <- ctx_h2f None cells (fst kv); Ok (rekey_put acc k (snd kv))) cells acc
   = Ok (acc ++ cells).
 Proof.
   generalize cells at 2. intros all. induction cells as [|[k v] r IH]; intros acc Hnd.
   - rewrite app_nil_r. reflexivity.
-  - cbn [foldM ctx_h2f bind fst snd]. rewrite oset_absent_str.
+  - cbn [foldM ctx_h2f bind fst snd]. rewrite rekey_put_new.
     + rewrite IH; rewrite <- app_assoc; [reflexivity|exact Hnd].
     + rewrite map_app in Hnd. apply NoDup_remove_2 in Hnd. intros Hin. apply Hnd. apply in_or_app. left. exact Hin.
 Qed.
@@ -1271,14 +1279,14 @@ Proof.
   - destruct t as [| | | | |t'|fields h2f f2h]; try discriminate; destruct v as [| | | |l|fs]; try discriminate.
     + unfold packed_ok in H. destruct (to_nv TUList (VList l)) as [x|]; [|discriminate].
       apply andb_true_iff in H as [H _]. apply andb_true_iff in H as [Hw _].
-      destruct (list_roundtrip x Hw) as [txt [J _]]. exists txt. cbn [bind]. unfold join_cell. rewrite J. reflexivity.
+      destruct (list_roundtrip_tree x Hw) as [txt [J _]]. exists txt. cbn [bind]. unfold join_cell. rewrite J. reflexivity.
     + destruct l as [|e l']; [exists []; reflexivity|].
       unfold packed_ok in H. destruct (to_nv (TList t') (VList (e :: l'))) as [x|]; [|discriminate].
       apply andb_true_iff in H as [H _]. apply andb_true_iff in H as [Hw _].
-      destruct (list_roundtrip x Hw) as [txt [J _]]. exists txt. cbn [bind]. unfold join_cell. rewrite J. reflexivity.
+      destruct (list_roundtrip_tree x Hw) as [txt [J _]]. exists txt. cbn [bind]. unfold join_cell. rewrite J. reflexivity.
     + unfold packed_ok in H. destruct (to_nv (TModel fields h2f f2h) (VModel fs)) as [x|]; [|discriminate].
       apply andb_true_iff in H as [H _]. apply andb_true_iff in H as [Hw _].
-      destruct (list_roundtrip x Hw) as [txt [J _]]. exists txt. cbn [bind]. unfold join_cell. rewrite J. reflexivity.
+      destruct (list_roundtrip_tree x Hw) as [txt [J _]]. exists txt. cbn [bind]. unfold join_cell. rewrite J. reflexivity.
 Qed.
 
 Lemma mapRi_cons {E X T} (g : nat -> X -> result E T) i x r :
